@@ -196,6 +196,11 @@ class ContainedSubtypeConstraint(AbstractConstraint):
         # this will raise ValueConstraintError
         divisor_of_eighteen = DivisorOfEighteen(10)
     """
+    def _setValues(self, values):
+        self._values = values
+        self._set = set([value for value in values
+                         if not isinstance(value, AbstractConstraint)])
+
     def _testValue(self, value, idx):
         for constraint in self._values:
             if isinstance(constraint, AbstractConstraint):
